@@ -9,6 +9,10 @@
    - every share is an admissible run of that image in the sense of C05 with the budget that is left
      (hence the total is at most the fragment limit), the return value is the number of fragments consumed;
    - fairness: when the limit is positive and the starting image has a data frame visible, its share is not empty;
+   - progress of the starting image: when the limit is positive and the starting image sees a committed frame at its
+     position (data, or the padding frame that closes a term), its subscriber position moves forward - unless the
+     first frame is a data frame the controlled handler answers Abort.  An image whose poll never leaves a padding
+     frame would never be served again although the others are (it has data beyond its position in the next term);
    - the messages given to the delegate, filtered by session, are exactly what the single-session machine
      delivers on that session's fragments - whatever the other sessions interleave;
    - images that are not in the list do not move.
@@ -34,6 +38,9 @@ Definition os_removed (s : oslot) : bool := let '(_, _, _, _, _, _, c) := s in c
 Definition os_with_pos (s : oslot) (p : Z) : oslot := let '(id, b, i, se, sg, _, c) := s in (id, b, i, se, sg, p, c).
 Definition os_grow (s : oslot) (j : Z) : oslot :=
   let '(id, b, i, se, sg, p, c) := s in (id, b, i, se, match grow_seg [sg] 0 j with g :: _ => g | [] => sg end, p, c).
+Definition os_roll (s : oslot) (vis : Z) (claim : bool) (ss : list fspec) : oslot :=
+  let '(id, b, i, se, sg, p, c) := s in
+  if p =? (seg_n sg + 1) * 2 ^ b then (id, b, i, se, build_seg i se (seg_n sg + 1, 0, vis, claim, ss), p, c) else s.
 Definition os_frames (s : oslot) : list frame :=
   let '(_, bits, _, _, sg, p, _) := s in frames_at bits [sg] p.
 Definition os_wf (s : oslot) : bool :=
@@ -123,6 +130,18 @@ Definition fair_first (order : list oslot) (raws : list fobs) (limit : Z) : bool
   | [] => true
   end.
 
+(* the starting image must move: it is polled first, with the whole limit.  `sc` = the handler's answers to its visible
+   data frames.  Padding is skipped without asking the handler; a data frame is consumed unless the answer is Abort. *)
+Definition must_advance (sc : list action) (fs : list frame) : bool :=
+  match fs with [] => false | f :: _ => is_pad f || negb (is_abort (hd Continue sc)) end.
+
+Definition fair_progress (osc : oslot -> list action) (order : list oslot) (limit : Z) (ps : list Z) : bool :=
+  match order with
+  | sl :: _ =>
+      if (0 <? limit) && os_wf sl && must_advance (osc sl) (os_frames sl) then os_pos sl <? pos_at ps (os_id sl) else true
+  | [] => true
+  end.
+
 (* ---- the assembler part ---- *)
 (* payload of the fragment an observation describes: the frame of that image's segment at that offset *)
 Definition seg_frames (s : oslot) : list dlv :=
@@ -183,13 +202,13 @@ Definition judge_sop (st : ostate20) (o : sop) (ob : sobs) : bool :=
       let '(start, _) := rr_next (Z.of_nat (length present)) rr in
       let order := rotation start present in
       let '(ok, total) := judge_shares jp_poll (fun sh => Z.of_nat (length sh)) order raws limit 0 ps in
-      ok && out_eqb ret (Ok total) && fair_first order raws limit
+      ok && out_eqb ret (Ok total) && fair_first order raws limit && fair_progress (fun _ => []) order limit ps
       && fst (judge_sessions present raws dels spec) && forallb (known_session present) dels
   | SCPoll limit salt tab =>
       let '(start, _) := rr_next (Z.of_nat (length present)) rr in
       let order := rotation start present in
       let '(ok, total) := judge_shares (jp_cpoll salt tab) (consumed_count salt tab) order raws limit 0 ps in
-      ok && out_eqb ret (Ok total) && fair_first order raws limit
+      ok && out_eqb ret (Ok total) && fair_first order raws limit && fair_progress (os_script salt tab) order limit ps
       && match dels with [] => true | _ => false end
   | SBlock bl =>
       let jb sl (_ : Z) share p' :=
@@ -218,6 +237,8 @@ Definition onext20 (st : ostate20) (o : sop) (ob : sobs) : ostate20 :=
   | SCPoll _ _ _ => (absent', present', snd (rr_next (Z.of_nat (length present)) rr), spec)
   | SBlock _ => (absent', present', rr, spec)
   | SGrow id j => (map_os id (fun s => os_grow s j) absent', map_os id (fun s => os_grow s j) present', rr, spec)
+  | SRoll id vis claim ss =>
+      (map_os id (fun s => os_roll s vis claim ss) absent', map_os id (fun s => os_roll s vis claim ss) present', rr, spec)
   | SAdd id =>
       match find_os id absent' with
       | Some sl => if os_removed sl then (absent', present', rr, spec)
